@@ -110,6 +110,9 @@ func lenOne(v *lvec, sum *hx.Summary) (c01 bool) {
 		m := build(compress)
 		l := m.Len()
 		b, err := m.Pack()
+		if err != nil && err != dns.ErrBuf && v.Refuse {
+			continue // admitted by the specification: an unordered type list may be refused
+		}
 		if err != nil {
 			k := "len/pack-error:"
 			if err == dns.ErrBuf {
